@@ -260,6 +260,22 @@ func PopulateStructFields(m map[string]any, data any) {
 		rv = rv.Elem()
 	}
 
+	// A map used as root data contributes its string keys (lookups reach them through the
+	// root-data fallback, so the flattened environment has to list them too).
+	if rv.Kind() == reflect.Map {
+		iter := rv.MapRange()
+		for iter.Next() {
+			k := iter.Key()
+			for k.Kind() == reflect.Interface && !k.IsNil() {
+				k = k.Elem()
+			}
+			if k.Kind() == reflect.String {
+				m[k.String()] = iter.Value().Interface()
+			}
+		}
+		return
+	}
+
 	if rv.Kind() != reflect.Struct {
 		return
 	}
